@@ -1,5 +1,6 @@
 import AggkitModel.Model.BridgeStore
 import AggkitModel.Properties.C01
+import AggkitModel.Properties.C08
 import AggkitModel.Generated.Schema
 set_option linter.unusedSectionVars false
 /-
@@ -95,3 +96,87 @@ theorem C04_full_false_with_rmLegacy :
     (reorg H 2 s2 2).rows = [] ∧ s1.rows.length = 1 := by decide
 
 end Aggkit.C04
+
+namespace Aggkit
+variable {α : Type} [DecidableEq α]
+
+/-- **a reorg of the updatable tree, then the new fork** (C04 for the rollup exit tree): upserts `us1` (blocks below `b`), upserts
+    `us2` (blocks from `b` on), `Reorg(b)`, then the new fork's upserts `us3`. The tree answers exactly as the specification
+    of the history `us1 ++ us3` says — the roots returned for the new fork are the spec roots of its versions, and the
+    store serves every version of `us1` and of the new fork with verifying proofs; the dropped versions leave nothing
+    behind that could change an answer (their nodes stay in the node table, harmlessly). -/
+theorem C04_updatable_reorg (H : HashAlg α) (hinj : H.Inj) (n : Nat) (us1 us2 us3 : List (Ups α)) (b : Nat)
+    (h1 : ∀ u ∈ us1, u.bn < b) (h2 : ∀ u ∈ us2, b ≤ u.bn)
+    (hk1 : KeysInc (0, 0) us1) (hk2 : KeysInc (finalK (0, 0) us1) us2) (hk3 : KeysInc (finalK (0, 0) us1) us3)
+    (hpos : ∀ u ∈ us1 ++ us2 ++ us3, u.pos < 2^n)
+    (db12 : TreeDb α) (r12 : List α) (hrun12 : runUps H n {} (us1 ++ us2) = some (db12, r12))
+    (db : TreeDb α) (r3 : List α) (hrun3 : runUps H n (db12.reorg b) us3 = some (db, r3)) :
+    let f1 := finalF (fun _ => H.zero) us1
+    let W1 := finalW (fun _ => False) us1
+    r3 = (versions f1 W1 us3).map (fun v => tn H v.1 n 0) ∧
+    ∀ v ∈ versions (fun _ => H.zero) (fun _ => False) us1 ++ versions f1 W1 us3, ∀ p, v.2 p → p < 2^n →
+      getLeaf n db p (tn H v.1 n 0) = .ok (v.1 p) ∧
+      calcRoot H (v.1 p) (getProof H n db p (tn H v.1 n 0)) p = tn H v.1 n 0 := by
+  intro f1 W1
+  have inv0 : UInv H n ({} : TreeDb α) (fun _ => H.zero) (fun _ => False) [] (0, 0) := by
+    refine ⟨by intro nd h; simp at h, ?_, fun _ _ => rfl, ?_, by simp, by simp⟩
+    · unfold lastRootHash getLastRoot
+      simp only [List.foldl_nil]
+      exact (tn_zero_of H _ n 0 (fun _ _ => rfl)).symm
+    · intro h q _ ⟨p, hp, _⟩; exact absurd hp (by simp)
+  obtain ⟨db1, ra, rb, hrun1, hrun2, _⟩ := runUps_append H n us1 us2 {} db12 r12 hrun12
+  have hp1 : ∀ u ∈ us1, u.pos < 2^n := fun u hu => hpos u (by simp [hu])
+  have hp2 : ∀ u ∈ us2, u.pos < 2^n := fun u hu => hpos u (by simp [hu])
+  have hp3 : ∀ u ∈ us3, u.pos < 2^n := fun u hu => hpos u (by simp [hu])
+  -- after `us1`
+  obtain ⟨⟨vs1, i1, _⟩, hroots1, _⟩ := runUps_full H hinj n us1 {} _ _ [] (0, 0) inv0 hk1 hp1 db1 ra hrun1
+  obtain ⟨q1, q2, q3⟩ := runUps_inv H hinj n us1 {} _ _ [] (0, 0) inv0 hk1 hp1 db1 ra hrun1
+  -- after `us2` on top: the node table only grew, the root table got the rows of `us2`
+  obtain ⟨⟨vs12, i12, _⟩, hroots2, ns2, hrht2⟩ := runUps_full H hinj n us2 db1 _ _ vs1 _ i1 hk2 hp2 db12 rb hrun2
+  -- the reorg removes exactly the rows of `us2`
+  have hre : (db12.reorg b).roots = db1.roots := by
+    unfold TreeDb.reorg
+    simp only
+    rw [hroots2, List.filter_append]
+    have ha : db1.roots.filter (fun r => decide (r.blockNum < b)) = db1.roots := by
+      apply List.filter_eq_self.mpr
+      intro x hx
+      rw [hroots1] at hx
+      simp only [List.nil_append] at hx
+      obtain ⟨u, hu, e⟩ := rowsOf_bn H n us1 _ x hx
+      have := h1 u hu
+      simp; omega
+    have hb : (rowsOf H n (finalF (fun _ => H.zero) us1) us2).filter (fun r => decide (r.blockNum < b)) = [] := by
+      apply List.filter_eq_nil_iff.mpr
+      intro x hx
+      obtain ⟨u, hu, e⟩ := rowsOf_bn H n us2 _ x hx
+      have := h2 u hu
+      simp; omega
+    rw [ha, hb, List.append_nil]
+  have hrht : (db12.reorg b).rht = storeNodes db1.rht ns2 := by unfold TreeDb.reorg; simp only; exact hrht2
+  -- so the reorged store satisfies the invariant of the state after `us1`
+  have ire : UInv H n (db12.reorg b) f1 W1 vs1 (finalK (0, 0) us1) := by
+    refine ⟨?_, ?_, i1.zo, ?_, ?_, ?_⟩
+    · exact i12.cons
+    · unfold lastRootHash getLastRoot; rw [hre]; exact i1.last
+    · rw [hrht]; exact closed_mono H n _ _ _ _ i1.cur
+    · intro v hv; obtain ⟨c1, c2⟩ := i1.old v hv; exact ⟨by rw [hrht]; exact closed_mono H n _ _ _ _ c1, c2⟩
+    · intro r hr; rw [hre] at hr; exact i1.keys r hr
+  obtain ⟨t1, t2, t3⟩ := runUps_inv H hinj n us3 (db12.reorg b) f1 W1 vs1 _ ire hk3 hp3 db r3 hrun3
+  obtain ⟨_, _, ns3, hrht3⟩ := runUps_full H hinj n us3 (db12.reorg b) f1 W1 vs1 _ ire hk3 hp3 db r3 hrun3
+  refine ⟨t1, ?_⟩
+  intro v hv p hp hpb
+  have hcz : Closed H n db.rht v.1 v.2 ∧ ZeroOutside H v.1 v.2 := by
+    rcases List.mem_append.mp hv with h | h
+    · obtain ⟨c1, c2⟩ := q3 v (by simp only [List.nil_append, List.mem_cons]; exact Or.inr h)
+      refine ⟨?_, c2⟩
+      rw [hrht3, hrht]
+      exact closed_mono H n _ _ _ _ (closed_mono H n _ _ _ _ c1)
+    · exact t3 v (by simp only [List.mem_append, List.mem_cons]; exact Or.inr (Or.inr h))
+  constructor
+  · exact getLeaf_spec H hinj n db v.1 v.2 t2 hcz.1 p hpb hp
+  · unfold getProof
+    rw [getSiblings_spec H hinj n db.rht v.1 v.2 t2 hcz.1 hcz.2 p hpb]
+    exact calcRoot_spec H n v.1 p hpb
+
+end Aggkit
